@@ -236,6 +236,8 @@ def run_native(qual, args, timeout=900):
     payload = json.dumps({"qual": qual, "args": jsonable(args)})
     env = dict(os.environ)
     env["PYTHONPATH"] = VERIF + os.pathsep + env.get("PYTHONPATH", "")
+    for _v in ("OMP_NUM_THREADS", "OPENBLAS_NUM_THREADS", "MKL_NUM_THREADS", "NUMEXPR_NUM_THREADS"):
+        env.setdefault(_v, "1")  # budgets are CPU time: one numerical thread per real-code run
     try:
         p = subprocess.run([sys.executable, "-m", "pyvc.nativerun"], input=payload, capture_output=True, text=True, timeout=timeout, env=env, cwd=VERIF)
     except subprocess.TimeoutExpired:
